@@ -193,12 +193,21 @@ template <int L, class V, typename T, glm::qualifier Q> static int read_oper(V& 
 #endif
 
 // a 16-byte aligned home for the source vector with readable padding behind it (aligned vec2 swizzles load 16 bytes, see op_wide_load)
+// the vector under test lives in a padded, zeroed home so that an access past the object cannot crash an ordinary build;
+// in a sanitizer build it lives at the end of an exactly-sized heap block instead, so that the same access IS reported (C20)
+#ifdef GLMX_SANITIZE
+#include <cstdlib>
+template <class V> struct Home { V* p; V& v; Home() : p(static_cast<V*>(std::aligned_alloc(alignof(V), sizeof(V)))), v(*p) {} ~Home() { std::free(p); } Home(const Home&) = delete; };
+#define HOME_ZERO(h) std::memset((void*)(h).p, 0, sizeof(*(h).p))
+#else
 template <class V> struct alignas(16) Home { V v; char pad[16]; };
+#define HOME_ZERO(h) std::memset(&(h), 0, sizeof(h))
+#endif
 
 template <int IMPL, int L, typename T, glm::qualifier Q> static void op_read(const Case& c, Outcome& o) {
   typedef glm::vec<L, T, Q> V; const int code = (int)c.w[0], pat = (int)c.w[1]; const Name nm = decode(code);
   if (!name_valid(nm, L)) { o.bad(90, "ORACLE: the domain produced a name that is not valid for this source length"); return; }
-  T src[4]; Home<V> h; std::memset(&h, 0, sizeof h); V& v = h.v; for (int i = 0; i < L; ++i) { src[i] = tag<T>(pat, i); v[i] = src[i]; }
+  T src[4]; Home<V> h; HOME_ZERO(h); V& v = h.v; for (int i = 0; i < L; ++i) { src[i] = tag<T>(pat, i); v[i] = src[i]; }
   T out[4] = {T(0), T(0), T(0), T(0)}; int n = R_INVALID;
   if constexpr (IMPL == IMPL_FREE) n = read_free<L>(v, code, out);
 #if C17_FUNC
@@ -285,7 +294,7 @@ static inline bool step_valid(uint64_t w, int L) { int code = (int)(w >> 4), op 
 template <int L, typename T, glm::qualifier Q> static void op_write(const Case& c, Outcome& o) {
   typedef glm::vec<L, T, Q> V; typedef typename ModelT<T>::type M;
   static const long long START[4] = {2, 3, 5, 7}, OTHER[4] = {257, 263, 269, 271}, RHS[4] = {11, 13, 17, 19};
-  Home<V> hv, hu; std::memset(&hv, 0, sizeof hv); std::memset(&hu, 0, sizeof hu); V& v = hv.v; V& u = hu.v; M m[4]; T rhs[4];
+  Home<V> hv, hu; HOME_ZERO(hv); HOME_ZERO(hu); V& v = hv.v; V& u = hu.v; M m[4]; T rhs[4];
   for (int i = 0; i < 4; ++i) rhs[i] = (T)RHS[i];
   for (int i = 0; i < L; ++i) { v[i] = (T)START[i]; u[i] = (T)OTHER[i]; m[i] = (M)START[i]; }
   int len = 0; for (int k = 0; k < c.n; ++k) if (c.w[k] != 0xffff) ++len;
@@ -356,7 +365,7 @@ static bool sc_valid(uint64_t code, uint64_t form, int L) { if (code >= 336 || f
 template <int L, typename T, glm::qualifier Q> static void op_swzctor(const Case& c, Outcome& o) {
   typedef glm::vec<L, T, Q> V; const int code = (int)c.w[0], form = (int)c.w[1], pat = (int)c.w[2]; const Name nm = decode(code); o.cls(0);
   if (!sc_valid(c.w[0], c.w[1], L)) { o.bad(94, "ORACLE: invalid swizzle-constructor case"); return; }
-  T src[4]; Home<V> h; std::memset(&h, 0, sizeof h); V& v = h.v; for (int i = 0; i < L; ++i) { src[i] = tag<T>(pat, i); v[i] = src[i]; }
+  T src[4]; Home<V> h; HOME_ZERO(h); V& v = h.v; for (int i = 0; i < L; ++i) { src[i] = tag<T>(pat, i); v[i] = src[i]; }
   const T a = tag<T>(pat ^ 1, 0), b = tag<T>(pat ^ 1, 1) ; T out[4] = {T(0), T(0), T(0), T(0)}, want[4]; int wn = 0;
   auto S = [&]() { for (int k = 0; k < nm.n; ++k) want[wn++] = src[nm.idx[k]]; };
   switch (form) { case SC_SAME: S(); break; case SC_V3_P2S: S(); want[wn++] = a; break; case SC_V3_SP2: want[wn++] = a; S(); break; case SC_V4_P2P2_A: S(); want[wn++] = src[1]; want[wn++] = src[0]; break; case SC_V4_P2P2_B: want[wn++] = src[0]; want[wn++] = src[1]; S(); break;
